@@ -196,7 +196,7 @@ def accepted(g):
     return not divergent_subsets(tab), tab, dod, L
 
 
-def gen_accepted(r, emax=6, tries=60, connected=False, fams=None, want_dod_pos=True, Ds=(1, 2, 3, 4, 5, 6)):
+def gen_accepted(r, emax=6, tries=60, connected=False, fams=None, want_dod_pos=True, Ds=(1, 2, 3, 4, 5, 6), ext_all=False):
     """an accepted graph (no divergent proper subgraph, dod > 0), by rejection on a weight grid"""
     fams = fams or FAMILIES
     for _ in range(tries):
@@ -208,7 +208,7 @@ def gen_accepted(r, emax=6, tries=60, connected=False, fams=None, want_dod_pos=T
             continue
         pairs = relabel(r, pairs)
         D = r.choice(Ds)
-        g = make_graph(r, pairs, D)
+        g = make_graph(r, pairs, D, externals=(sorted({v for p in pairs for v in p}) if ext_all else None))
         for _ in range(12):
             ok, tab, dod, L = accepted(g)
             min_gd = min((t[2] for t in tab[1:-1]), default=Fraction(1))
